@@ -401,7 +401,12 @@ func corruptFile(t *simrt.Tape, meta string, forLibrary bool) ([]byte, string, [
 		case 3:
 			name = longName(fmt.Sprintf("L%d/", i), 3000+t.Draw(1000))
 		}
-		pairs = append(pairs, refformat.Pair{Name: name, Value: uint64(1 + t.Draw(100))})
+		// (a third of the records hold zero: a slot allocated but never counted into)
+		val := uint64(1 + t.Draw(100))
+		if t.Bool(1, 3) {
+			val = 0
+		}
+		pairs = append(pairs, refformat.Pair{Name: name, Value: val})
 	}
 	seen := map[string]bool{}
 	var uniq []refformat.Pair
